@@ -18,6 +18,32 @@ func parsedFromText(v ssa.Value) bool {
 		case *ssa.Convert:
 			v = x.X
 			continue
+		case *ssa.Parameter:
+			// the number handed to an accessor of the package (sharedStringAt(idx)): parsed when a caller parsed it
+			fn := x.Parent()
+			if fn == nil || boundedProg == nil || fn.Object() == nil || fn.Object().Exported() {
+				return false
+			}
+			pi := -1
+			for i, p := range fn.Params {
+				if p == x {
+					pi = i
+				}
+			}
+			for _, g := range boundedProg.ModuleFuncs() {
+				if g.Pkg != fn.Pkg {
+					continue
+				}
+				for _, ci := range eng.Calls(g, true, func(_ string, ci ssa.CallInstruction) bool { return eng.StaticCallee(ci) == fn }) {
+					args := eng.ArgsWithRecv(ci)
+					if pi >= 0 && pi < len(args) {
+						if _, isP := args[pi].(*ssa.Parameter); !isP && parsedFromText(args[pi]) {
+							return true
+						}
+					}
+				}
+			}
+			return false
 		case *ssa.Extract:
 			if call, ok := x.Tuple.(*ssa.Call); ok && x.Index == 0 {
 				switch eng.CalleeName(call) {
@@ -53,8 +79,18 @@ func ruleParsedIndex(c *eng.Ctx) {
 			key := fmt.Sprintf("%s#index%d", eng.FuncName(fn), n)
 			blk := in.Block()
 			f := in.Parent()
-			lo := bounded(f, idx, 0, false, blk, 0)
-			hi := eng.GuardedBy(f, blk, func(ft eng.Fact) bool {
+			// a bounds predicate of the module (inBounds(s, i)) found true establishes both bounds
+			viaPred := eng.GuardedBy(f, blk, func(ft eng.Fact) bool {
+				call, ok := ft.Cond.(*ssa.Call)
+				if !ok || !ft.Pos {
+					return false
+				}
+				si, ii, isP := eng.BoundsPredicate(eng.StaticCallee(call))
+				args := eng.ArgsWithRecv(call)
+				return isP && si < len(args) && ii < len(args) && eng.SameValue(args[ii], idx) && eng.SameValue(args[si], base)
+			})
+			lo := viaPred || bounded(f, idx, 0, false, blk, 0)
+			hi := viaPred || eng.GuardedBy(f, blk, func(ft eng.Fact) bool {
 				op, x, y, ok := ft.Cmp()
 				if !ok {
 					return false
